@@ -12,12 +12,18 @@ COMMON_ASSUMPTIONS = [
 
 def setup():
     t0 = time.time()
-    mount()
+    mi = mount()
     build(["vlibc", "vkit", "vcore", "e3m", "e3r"])
     build_e1()
     build(["e2"])
     build(["e3m", "e3r"], profile="nodbg")
     build_e1(profile="release")
+    try:
+        import e4
+        n = e4.prebuild(mi)
+        print(f"[vcheck] {n} per-arm programs of the fake! macro prebuilt (dev and release configuration)")
+    except Exception as e:  # the checks build what is missing and report what does not build
+        print(f"[vcheck] warning: per-arm programs not prebuilt: {str(e)[:200]}")
     for tool in ("llvm-mc-14",):
         r = subprocess.run(["which", tool], capture_output=True)
         if r.returncode != 0:
